@@ -55,7 +55,12 @@ def build(vectors, fn):
 def check_truncate(vectors, fn, k):
     from artap.operators import nondominated_truncate
     out = []
-    pop = build(vectors, fn)
+    try:
+        pop = build(vectors, fn)
+    except Exception as e:
+        return [("C03:truncate:ranking-exception:%s" % type(e).__name__, "ranking %r (%s) raised %r" % (vectors, fn, e))]
+    if any(p.features.get('front_number') is None for p in pop):
+        return [("C03:truncate:unranked-member", "after sorting %r (%s) the front numbers are %r" % (vectors, fn, [p.features.get('front_number') for p in pop]))]
     front = {tuple(p.vector): p.features['front_number'] for p in pop}
     cd = {id(p): p.features['crowding_distance'] for p in pop}
     try:
